@@ -754,7 +754,7 @@ theorem parseArray_no_crash (c : Codec) (hc : c.Good) (mem : Nat) (p : Bytes →
     (hpc : ∀ s, Small s → ConsumedOK (p s) s)
     (hp : ∀ s, Q s → NoCrash (p s))
     (rest : Bytes) (hs : Small (42 :: rest)) (hq : Q (rest.drop 0))
-    (hmem : elemSize * (42 :: rest).length < mem) (hmem2 : mem ≤ 9223372036854775808)
+    (hmem : c.prealloc = false ∨ (elemSize * (42 :: rest).length < mem ∧ mem ≤ 9223372036854775808))
     (hsane : headerSane c (42 :: rest) = true) :
     NoCrash (parseArray c mem p (42 :: rest)) := by
   unfold NoCrash parseArray
@@ -778,15 +778,22 @@ theorem parseArray_no_crash (c : Codec) (hc : c.Good) (mem : Nat) (p : Bytes →
       · simp [h1, Outcome.isCrash]
       · simp only [h1, if_false]
         have hu := asUsize_nonneg n (by omega) hr.2
-        have hreq : preReq c n ≤ elemSize * (42 :: rest).length := by
+        have hreq : preReq c n = 0 ∨ (preReq c n ≤ elemSize * (42 :: rest).length ∧
+            elemSize * (42 :: rest).length < mem ∧ mem ≤ 9223372036854775808) := by
           unfold preReq
           split
-          · rw [hu]
-            have : n.toNat ≤ (42 :: rest).length := by
-              have := hsane.2; simp at this ⊢; omega
-            rw [Nat.mul_comm]
-            exact Nat.mul_le_mul_left _ this
-          · omega
+          · rename_i hpre
+            cases hmem with
+            | inl h => simp [hpre] at h
+            | inr h =>
+              right
+              refine ⟨?_, h⟩
+              rw [hu]
+              have : n.toNat ≤ (42 :: rest).length := by
+                have := hsane.2; simp at this ⊢; omega
+              rw [Nat.mul_comm]
+              exact Nat.mul_le_mul_left _ this
+          · exact Or.inl rfl
         have h2 : ¬ preReq c n > isizeMax := by unfold isizeMax; omega
         have h3 : ¬ (preReq c n ≥ mem ∧ preReq c n ≠ 0) := by omega
         simp only [h2, h3, if_false]
@@ -800,18 +807,19 @@ theorem parseArray_no_crash (c : Codec) (hc : c.Good) (mem : Nat) (p : Bytes →
           | ok vs k' => simp [Outcome.isCrash]
           | stop o => rw [he] at this; simpa using this
 
-theorem parseD_no_crash (c : Codec) (hc : c.Good) (mem : Nat) (hmem2 : mem ≤ 9223372036854775808) :
-    ∀ (d : Nat) (bs : Bytes), LengthsSane c bs = true → stars bs < d → elemSize * bs.length < mem →
+theorem parseD_no_crash (c : Codec) (hc : c.Good) (mem : Nat) :
+    ∀ (d : Nat) (bs : Bytes), LengthsSane c bs = true → stars bs < d →
+      bs.length < 9223372036854775800 →
+      (c.prealloc = false ∨ (elemSize * bs.length < mem ∧ mem ≤ 9223372036854775808)) →
       NoCrash (parseD c mem d bs) := by
   intro d
   induction d with
-  | zero => intro bs _ h _; omega
+  | zero => intro bs _ h _ _; omega
   | succ d ih =>
-    intro bs hsane hstars hmem
+    intro bs hsane hstars hlen hmem
     cases bs with
     | nil => simp [NoCrash, parseD, Outcome.isCrash]
     | cons t rest =>
-      have hlen : (t :: rest).length < 9223372036854775800 := by unfold elemSize at hmem; omega
       unfold parseD
       by_cases h1 : t = 43
       · simp only [h1, if_true]
@@ -834,20 +842,27 @@ theorem parseD_no_crash (c : Codec) (hc : c.Good) (mem : Nat) (hmem2 : mem ≤ 9
               · subst h5
                 simp only [if_true]
                 refine parseArray_no_crash c hc mem _
-                  (fun s => LengthsSane c s = true ∧ stars s < d ∧ elemSize * s.length < mem)
-                  ?_ (parseD_consumed c hc mem d) ?_ rest ?_ ?_ hmem hmem2 (LengthsSane_head c _ _ hsane)
-                · intro s k ⟨q1, q2, q3⟩
-                  refine ⟨LengthsSane_drop c s k q1, ?_, ?_⟩
+                  (fun s => LengthsSane c s = true ∧ stars s < d ∧ s.length < 9223372036854775800 ∧
+                    (c.prealloc = false ∨ (elemSize * s.length < mem ∧ mem ≤ 9223372036854775808)))
+                  ?_ (parseD_consumed c hc mem d) ?_ rest ?_ ?_ hmem (LengthsSane_head c _ _ hsane)
+                · intro s k ⟨q1, q2, q3, q4⟩
+                  refine ⟨LengthsSane_drop c s k q1, ?_, ?_, ?_⟩
                   · have := stars_drop s k; omega
-                  · simp; unfold elemSize at *; omega
-                · intro s ⟨q1, q2, q3⟩
-                  exact ih s q1 q2 q3
+                  · simp; omega
+                  · cases q4 with
+                    | inl h => exact Or.inl h
+                    | inr h => right; simp; unfold elemSize at *; omega
+                · intro s ⟨q1, q2, q3, q4⟩
+                  exact ih s q1 q2 q3 q4
                 · unfold Small; omega
                 · simp only [List.drop_zero]
-                  refine ⟨?_, ?_, ?_⟩
+                  refine ⟨?_, ?_, ?_, ?_⟩
                   · simp [LengthsSane] at hsane; exact hsane.2
                   · simp [stars] at hstars; omega
-                  · simp at hmem; unfold elemSize at *; omega
+                  · simp at hlen; omega
+                  · cases hmem with
+                    | inl h => exact Or.inl h
+                    | inr h => right; simp at h; unfold elemSize at *; omega
               · simp [h5, NoCrash, Outcome.isCrash]
 
 /-! ### allocation bounds -/
@@ -1218,6 +1233,135 @@ theorem parseD_alloc_len (c : Codec) (hc : c.Good) (mem : Nat) :
                   | inl h => exact Or.inl h
                   | inr h => exact Or.inr (LengthsSane_head c _ _ h)
               · simp
+
+/-- a successful decode allocated at most `3 + pf c` bytes per consumed byte, whatever the
+    nesting (every value leaves `pf c` bytes of credit for its slot in the parent's vector) -/
+def AllocOk2 (c : Codec) (r : Res) : Prop :=
+  ∀ v n, r.out = .ok v n → r.allocs.sum + pf c ≤ (3 + pf c) * n
+
+theorem AllocOk2.of3 (c : Codec) (r : Res) (bs : Bytes) (h : AllocOk 3 r) (hc : ConsumedOK r bs) :
+    AllocOk2 c r := by
+  intro v n ho
+  have h1 := h v n ho
+  have h2 := (hc v n ho).1
+  have : pf c * 1 ≤ pf c * n := Nat.mul_le_mul_left _ h2
+  rw [Nat.add_mul]
+  omega
+
+theorem elems_allocs_ok2 (c : Codec) (p : Bytes → Res) (ec : Bool)
+    (_hpc : ∀ s, Small s → ConsumedOK (p s) s)
+    (hpa : ∀ s, Small s → AllocOk2 c (p s)) :
+    ∀ (n : Nat) (rest : Bytes), Small rest → ∀ vs m a, elems p ec n rest = (.ok vs m, a) →
+      a.sum + pf c * n ≤ (3 + pf c) * m := by
+  intro n
+  induction n with
+  | zero =>
+    intro rest _ vs m a h
+    simp [elems] at h
+    obtain ⟨_, h3⟩ := h
+    subst h3
+    simp
+  | succ n ih =>
+    intro rest hs vs m a h
+    unfold elems at h
+    split at h
+    · simp at h
+    · simp only at h
+      split at h
+      · rename_i v k0 hk0
+        have ha := hpa rest hs v k0 hk0
+        split at h
+        · simp at h
+        · split at h
+          · rename_i vs' k' a' he
+            have := ih (rest.drop k0) (hs.drop k0) vs' k' a' he
+            simp at h
+            obtain ⟨⟨_, h2⟩, h3⟩ := h
+            subst h2 h3
+            simp only [List.sum_append, Nat.mul_add, Nat.mul_one]
+            omega
+          · simp at h
+      · simp at h
+
+theorem parseArray_alloc_ok2 (c : Codec) (hc : c.Good) (mem : Nat) (p : Bytes → Res)
+    (hpc : ∀ s, Small s → ConsumedOK (p s) s)
+    (hpa : ∀ s, Small s → AllocOk2 c (p s))
+    (bs : Bytes) (hs : Small bs) : AllocOk2 c (parseArray c mem p bs) := by
+  unfold AllocOk2 parseArray
+  cases hpos : c.findCrlf bs with
+  | none => simp
+  | some pos =>
+    have hb := hc.bound bs pos hpos
+    simp only []
+    cases hf : field bs pos with
+    | none => simp
+    | some s =>
+      simp only []
+      cases hn : parseI64 s with
+      | none => simp
+      | some n =>
+        simp only []
+        have hr := parseI64_range s n hn
+        by_cases h1 : n = -1
+        · simp only [h1, if_true]
+          intro v m hm
+          simp at hm
+          obtain ⟨_, hm2⟩ := hm
+          subst hm2
+          simp only [List.sum_nil, Nat.zero_add]
+          have : pf c * 1 ≤ pf c * (pos + 2) := Nat.mul_le_mul_left _ (by omega)
+          rw [Nat.add_mul]
+          omega
+        · simp only [h1, if_false]
+          by_cases h2 : preReq c n > isizeMax
+          · simp [h2]
+          · simp only [h2, if_false]
+            by_cases h3 : preReq c n ≥ mem ∧ preReq c n ≠ 0
+            · simp [h3]
+            · simp only [h3, if_false]
+              have hpre := preReq_le c n hr h2
+              cases he : elems p c.emptyCheck n.toNat (bs.drop (pos + 2)) with
+              | mk e al =>
+                cases e with
+                | ok vs k' =>
+                  have h6 := elems_allocs_ok2 c p c.emptyCheck hpc hpa _ _ (hs.drop (pos + 2)) vs k' al he
+                  intro v m hm
+                  simp at hm
+                  obtain ⟨_, hm2⟩ := hm
+                  subst hm2
+                  simp only [List.sum_append, preList_sum, hpre]
+                  have e1 : pf c * 1 ≤ pf c * (pos + 2) := Nat.mul_le_mul_left _ (by omega)
+                  rw [Nat.mul_add, Nat.add_mul 3 (pf c) (pos + 2)]
+                  omega
+                | stop o =>
+                  intro v m hm
+                  simp only at hm
+                  subst hm
+                  exact absurd he (elems_stop_not_ok p c.emptyCheck _ _ _ _ _)
+
+theorem parseD_alloc_ok2 (c : Codec) (hc : c.Good) (mem : Nat) :
+    ∀ (d : Nat) (bs : Bytes), Small bs → AllocOk2 c (parseD c mem d bs) := by
+  intro d
+  induction d with
+  | zero => intro bs _ v n h; simp [parseD] at h
+  | succ d ih =>
+    intro bs hs
+    cases bs with
+    | nil => intro v n h; simp [parseD] at h
+    | cons t rest =>
+      unfold parseD
+      split
+      · exact AllocOk2.of3 c _ _ (parseLine_allocs c hc _ _).2 (parseLine_consumed c hc _ _)
+      · split
+        · exact AllocOk2.of3 c _ _ (parseLine_allocs c hc _ _).2 (parseLine_consumed c hc _ _)
+        · split
+          · refine AllocOk2.of3 c _ _ ?_ (parseInt_consumed c hc _)
+            intro v n _; rw [parseInt_allocs]; simp
+          · split
+            · exact AllocOk2.of3 c _ _ (parseBulk_allocs c hc _ hs).2 (parseBulk_consumed c hc _ hs)
+            · split
+              · exact parseArray_alloc_ok2 c hc mem _ (parseD_consumed c hc mem d) ih _ hs
+              · intro v n h; simp at h
 
 /-! ### the buffer loop: fragmentation does not matter -/
 
